@@ -105,3 +105,26 @@ package tmi
 //@   ensures jump-ahead-delivered: old(s.StateMachineViewManager.roundEntrance.H) == old(s.Voting.Height) && old(s.StateMachineViewManager.roundEntrance.R) == old(s.Voting.Round) ==>
 //@       s.StateMachineViewManager.jumpAhead != nil && s.StateMachineViewManager.jumpAhead.Height == s.Voting.Height && s.StateMachineViewManager.jumpAhead.Round == s.Voting.Round
 //@   modifies heap
+
+// ShiftVotingToCommitting: the commit step of the kernel state (C04 position, C07 validator set, C06 power, C09 no double close).
+// chanclosed(c): ghost flag set by close(c).
+//@ func kState.ShiftVotingToCommitting
+//@   property C04 C07 C06 C09 C01
+//@   requires s.Voting.Height < MAXU64 && s.Voting.Version < MAXU32 && s.NextRound.Version < MAXU32
+//@   requires psum(nhd.ValidatorSet.Validators, allbits(), len(nhd.ValidatorSet.Validators)) <= MAXU64
+//@   requires s.GossipViewManager.inGrace != nil
+//@   requires s.StateMachineViewManager.roundEntrance.H == s.Committing.Height ==>
+//@       !chanclosed(s.StateMachineViewManager.roundEntrance.HeightCommitted)
+//@   ensures committing-is-old-voting: s.Committing.Height == old(s.Voting.Height) && s.Committing.Round == old(s.Voting.Round) &&
+//@       s.Committing.ValidatorSet == old(s.Voting.ValidatorSet)
+//@   ensures voting-is-next-height: s.Voting.Height == old(s.Voting.Height) + 1 && s.Voting.Round == 0
+//@   ensures next-round-follows: s.NextRound.Height == s.Voting.Height && s.NextRound.Round == 1
+//@   ensures valset-from-next-height-details: s.Voting.ValidatorSet == nhd.ValidatorSet && s.NextRound.ValidatorSet == nhd.ValidatorSet
+//@   ensures committing-header: s.CommittingHeader == nhd.VotedHeader
+//@   ensures available-power: s.Voting.VoteSummary.AvailablePower == psum(nhd.ValidatorSet.Validators, allbits(), len(nhd.ValidatorSet.Validators)) &&
+//@       s.NextRound.VoteSummary.AvailablePower == s.Voting.VoteSummary.AvailablePower
+//@   ensures fresh-vote-state: len(s.Voting.PrevoteProofs) == 0 && len(s.Voting.PrecommitProofs) == 0 && len(s.Voting.ProposedHeaders) == 0 &&
+//@       s.Voting.VoteSummary.TotalPrevotePower == 0 && s.Voting.VoteSummary.TotalPrecommitPower == 0
+//@   ensures height-committed-signal: old(s.StateMachineViewManager.roundEntrance.H) == old(s.Committing.Height) &&
+//@       old(s.StateMachineViewManager.roundEntrance.HeightCommitted) != nil ==> chanclosed(old(s.StateMachineViewManager.roundEntrance.HeightCommitted))
+//@   modifies heap
